@@ -1760,8 +1760,8 @@ func callBin(n *node) {
 			return fnext
 		}
 	default:
-		switch n.anc.action {
-		case aAssignX:
+		switch {
+		case n.anc.action == aAssignX:
 			// The function call is part of an assign expression, store results direcly
 			// to assigned location, to avoid an additional frame copy.
 			// The optimization of aAssign is handled in assign(), and should not
@@ -1802,7 +1802,7 @@ func callBin(n *node) {
 				}
 				return tnext
 			}
-		case aReturn:
+		case n.anc.action == aReturn && (len(n.anc.child) == 1 || n.findex == childPos(n)):
 			// The function call is part of a return statement, store output results
 			// directly in the frame location of outputs of the current function.
 			b := childPos(n)
